@@ -39,6 +39,7 @@ class Judge:
     def __init__(self):
         self.refs = {}
         self.seam = None
+        self.env_keys = set()      # unset environment variables the tool's own code asked for (discovered by the canary)
 
     def ref(self, rid, text):
         key = (rid, text)
@@ -55,6 +56,8 @@ class Judge:
                    'knobs': {'bufsize': 8192, 'read_chunk': 8192, 'write_chunk': 8192, 'out_bufsize': 8192, 'locale': 'utf-8',
                              'stdout_encoding': 'utf-8', 'entry': 'cli.main', 'omit_r': False}}
             res = _fork(lambda: CW.cli_channel(scn))
+            if isinstance(res, dict):
+                self.env_keys.update(res.get('env_missed') or [])
             self.seam = isinstance(res, dict) and res['sink'] == b'<p>canary <em>text</em></p>\n' and res['opened'] == ['canary.md']
         return self.seam
 
@@ -123,7 +126,19 @@ class Judge:
             files[fault['file_name']] = data[:off] + b'\xff\xfe' + data[off:]
         cscn = {'R': rid, 'files': [[n, files[n]] for n in files], 'argv_files': names, 'knobs': knobs, 'fault': fault,
                 'seed': scn['seed']}
+        explicit_r = not (rid == 'Html' and knobs.get('omit_r'))
+        if self.env_keys and explicit_r and scn['seed'] % 2 == 0:
+            # An explicit -r must win over anything the environment says: set a variable the tool is known to consult to a
+            # plausible value (another renderer's dotted path, or a flag) and judge as usual. Without an explicit -r nothing
+            # can be expected of such a variable, so it is only set when -r is given.
+            keys = sorted(self.env_keys)
+            key = keys[scn['seed'] // 2 % len(keys)]
+            cands = [CW.dotted(r) for r in W.BUNDLED_IDS if r != rid] + ['1', 'true', 'mistletoe.HtmlRenderer']
+            cscn['env'] = {key: cands[scn['seed'] // 7 % len(cands)]}
+            res['reach'].append('env_var_consulted_by_tool_set')
         out = _fork(lambda: CW.cli_channel(cscn))
+        if isinstance(out, dict):
+            self.env_keys.update(out.get('env_missed') or [])
         if not isinstance(out, dict):
             viol('cli', t0, ['ok', 'terminates'], list(out))
             return res
@@ -358,6 +373,7 @@ def worker_main(tier, seed, pl, corp, corpus_scn):
                 v.update({'seed': seed, 'tier': tier, 'batch': scn['batch'], 'index': scn['index']})
                 if agg['violations'] <= 30:
                     emit(('violation', v))
+        agg['env_keys'] = sorted(judge.env_keys)
         emit(('done', agg))
     return fn
 
@@ -553,6 +569,7 @@ def run_check(tier, seed):
                 total[k] += a[k]
             for k in ('digests', 'texts'):
                 total[k] |= a[k]
+            total.setdefault('env_keys', set()).update(a.get('env_keys') or [])
             for k in ('stats', 'fired', 'reach'):
                 for kk, n in a[k].items():
                     total[k][kk] = total[k].get(kk, 0) + n
@@ -622,6 +639,7 @@ def evidence(tier, seed, out, st):
             'corpus_texts_in_domain': out['corpus'],
             'output_shape_census': dict(_CENSUS),
             'rare_conditions_reached': total['reach'],
+            'env_vars_consulted_by_tool': sorted(total.get('env_keys') or []),
             'multi_file_scenarios': total['multi_file'],
             'faults_fired': total['fired'],
             'device_events': total['stats'],
